@@ -353,3 +353,42 @@ pub fn norm(t: &Term, table: &[OpSpec]) -> Term {
     let comm = |o: u16| table.get(o as usize).and_then(|s| s.bin).map(|b| b.1).unwrap_or(false);
     t.normalize(&comm)
 }
+
+// ---------------------------------------------------------------------------------------------
+// a fixed operator table and literal matcher made with the crate's own macros (`ops_factory!`,
+// `literal_matcher_from_pattern!`), the way the documentation tells users to define them
+
+/// the table `MacroOps` implements, slot by slot
+pub fn macro_table() -> Vec<OpSpec> {
+    vec![
+        OpSpec::un("sin"),
+        OpSpec::constant("PI"),
+        OpSpec::dual("-", 1, false),
+        OpSpec::dual("+", 1, true),
+        OpSpec::bin("*", 2, true),
+        OpSpec::bin("/", 2, false),
+        OpSpec::bin("^", 4, false),
+        OpSpec::bin("max", 5, true),
+        OpSpec::un("neg"),
+        OpSpec::bin("<=", 0, false),
+        OpSpec::bin("<", 0, false),
+        OpSpec::constant("τ"),
+    ]
+}
+exmex::ops_factory!(
+    MacroOps,
+    Term,
+    Operator::make_unary("sin", un_fn::<0>),
+    Operator::make_constant("PI", Term::Atom(CONST_BASE + 1)),
+    Operator::make_bin_unary("-", BinOp { apply: bin_fn::<2>, prio: 1, is_commutative: false }, un_fn::<2>),
+    Operator::make_bin_unary("+", BinOp { apply: bin_fn::<3>, prio: 1, is_commutative: true }, un_fn::<3>),
+    Operator::make_bin("*", BinOp { apply: bin_fn::<4>, prio: 2, is_commutative: true }),
+    Operator::make_bin("/", BinOp { apply: bin_fn::<5>, prio: 2, is_commutative: false }),
+    Operator::make_bin("^", BinOp { apply: bin_fn::<6>, prio: 4, is_commutative: false }),
+    Operator::make_bin("max", BinOp { apply: bin_fn::<7>, prio: 5, is_commutative: true }),
+    Operator::make_unary("neg", un_fn::<8>),
+    Operator::make_bin("<=", BinOp { apply: bin_fn::<9>, prio: 0, is_commutative: false }),
+    Operator::make_bin("<", BinOp { apply: bin_fn::<10>, prio: 0, is_commutative: false }),
+    Operator::make_constant("τ", Term::Atom(CONST_BASE + 11))
+);
+exmex::literal_matcher_from_pattern!(MacroMatcher, r"^([0-9]+\.?[0-9]*|\.[0-9]+)");
